@@ -58,7 +58,7 @@ ASSUMPTIONS = ["rates are positive and finite at every driven point (quantifier:
                "(dict charge->ndarray / Function1D / Function2D, or ndarray [charge, ...])",
                "free variables are ndarrays (or one scalar for 1-D functions) as documented",
                "forward error is owed only up to 50 eps kappa_2 of the documented linear system (double precision solve)"]
-QUICK = dict(cases=260, workers=2, timecap=45)
+QUICK = dict(cases=600, workers=2, timecap=40)
 THOROUGH = dict(cases=26000, workers=16, timecap=600)
 REQUIRED = {"fractions": 2000, "balance": 2000, "sum_range": 300, "densities": 40, "neutrality": 40, "cross_entry": 100,
             "interp_nodes": 40, "eqmap_points": 10, "contract_evals": 500, "donor_sensitive": 30}
